@@ -11,6 +11,8 @@ Identifiers come from a deliberately small pool so that spellings recur across s
 """
 from __future__ import annotations
 
+import random
+
 import os
 import re
 import shutil
@@ -155,6 +157,9 @@ class Gen:
         self.uid = 0
         self.nested_uses = nested_uses
         self.split_files = split_files
+        # chain mode: every module declares a public type extending the newest type of the previous module (EXTENDS chains of 3+ levels
+        # across files); decided from a private stream so that the other draws stay as they were
+        self.chain = types and random.Random(rng.random()).random() < 0.25
 
     def fresh(self, base):
         self.uid += 1
@@ -196,6 +201,11 @@ class Gen:
         taken = {m.name}
         for j in rng.sample(range(i), k=min(i, rng.randint(0, 2))):
             self.add_use(m, self.mods[j], taken)
+        if self.chain and i > 0 and not any(u.mod is self.mods[i - 1] for u in m.uses):
+            prev_t = [e for e in self.mods[i - 1].ents if e.kind == "type" and exports(self.mods[i - 1]).get(e.name) is e and e.name not in taken]
+            if prev_t:
+                m.uses.append(Use(self.mods[i - 1], [(prev_t[-1].name, prev_t[-1].name)]))
+                taken.add(prev_t[-1].name)
         # visibility overrides for re-exported names (PUBLIC :: x / PRIVATE :: x of use-associated entities)
         for u in m.uses:
             for n in imported(u):
@@ -203,7 +213,7 @@ class Gen:
                     m.reexport_vis[n] = rng.choice(["public", "private"])
         # derived types
         if self.o["types"]:
-            for k in range(rng.randint(0, 2)):
+            for k in range(rng.randint(0, 2) if not self.chain else rng.randint(1, 2)):
                 self.gen_type(m, i, taken)
         # variables
         for n in rng.sample(POOL, k=rng.randint(1, 4)):
@@ -273,8 +283,17 @@ class Gen:
         vis = visible(m)
         cands = [(k, v) for k, v in vis.items() if v.kind == "type"]
         if cands and rng.random() < 0.45:
-            pname, t.parent = rng.choice(cands)
+            deep = [(k, v) for k, v in cands if v.parent is not None]
+            # prefer parents that are extensions themselves: chains of three and more levels, usually across files
+            pname, t.parent = rng.choice(deep if deep and rng.random() < 0.6 else cands)
             t.parent_name = pname
+        if self.chain and cands:
+            def depth(v):
+                return 0 if v is None else 1 + depth(v.parent)
+            other = [(k, v) for k, v in cands if v.scope is not m] or cands
+            pname, t.parent = max(other, key=lambda kv: (depth(kv[1]), kv[0]))
+            t.parent_name = pname
+            t.vis = "public"
         inherited = set(t.parent.members()) if t.parent else set()
         for cn in rng.sample(COMP_POOL, k=rng.randint(1, 3)):
             if cn in inherited:
@@ -462,6 +481,16 @@ class Gen:
             lv = Ent(self.fresh("ix"), "var", s, loopvar=True)
             s.ents.append(lv)
             ctl = (lv.name, lv)
+        if kind == "where":
+            # masked and indexed array assignments (WHERE / FORALL statements and constructs) on a local array of the scope
+            wa = Ent(self.fresh("wa"), "var", s, loopvar=True, dims="(3)")
+            s.ents.append(wa)
+            form = rng.randrange(6)
+            ix = None
+            if form in (3, 4):
+                ix = Ent(self.fresh("ix"), "var", s, loopvar=True)
+                s.ents.append(ix)
+            return ("where", ctl, (wa, ix, form), [], self.fresh("lbl"))
         body2 = [x for x in (self.gen_stmt(s, depth + 1, extra) for _ in range(rng.randint(1, 2))) if x] if kind in ("ifelse", "select") else []
         return (kind, ctl, body, body2, self.fresh("lbl"))
 
@@ -693,10 +722,29 @@ class Renderer:
                     self.stmts(s, body2, i2)
                     self.L([pad, self.st.end("select", allow_bare=False)], "close", s)
                 elif kind == "where":
-                    # WHERE needs arrays: use a scalar-safe IF construct spelled with a decoy comment instead
-                    self.L([pad, k("if") + " (", self.ref(ctl), " /= 0) " + k("then") + " ! where (x) elsewhere end where"], "open", s)
-                    self.stmts(s, body, i2)
-                    self.L([pad, self.st.end("if", allow_bare=False)], "close", s)
+                    wa, ix, form = body
+                    wr = lambda: self.ref((wa.name, wa))
+                    p2 = " " * i2
+                    if form == 0:
+                        self.L([pad, k("where") + " (", wr(), " > 0) ", wr(), eq, self.ref(ctl)], "stmt", s)
+                    elif form == 1:
+                        self.L([pad, k("where") + " (", wr(), " > 0) ", wr(), "(:)", eq, self.ref(ctl)], "stmt", s)
+                    elif form == 2:
+                        self.L([pad, k("where") + " (", wr(), " > 0)"], "open", s)
+                        self.L([p2, wr(), eq, self.ref(ctl)], "stmt", s)
+                        self.L([pad, k(self.st.rng.choice(["elsewhere", "else where"]) if self.st.rng is not None else "elsewhere")], "mid", s)
+                        self.L([p2, wr(), "(:)", eq, "0"], "stmt", s)
+                        self.L([pad, self.st.end("where", allow_bare=False)], "close", s)
+                    elif form == 3:
+                        self.L([pad, k("forall") + " (", self.ref((ix.name, ix)), " = 1:3) ", wr(), "(", self.ref((ix.name, ix)), ")", eq, self.ref(ctl)], "stmt", s)
+                    elif form == 4:
+                        self.L([pad, k("forall") + " (", self.ref((ix.name, ix)), " = 1:3)"], "open", s)
+                        self.L([p2, wr(), "(", self.ref((ix.name, ix)), ")", eq, self.ref(ctl)], "stmt", s)
+                        self.L([pad, self.st.end("forall", allow_bare=False)], "close", s)
+                    else:
+                        self.L([pad, k("if") + " (", self.ref(ctl), " /= 0) " + k("then") + " ! where (x) elsewhere end where"], "open", s)
+                        self.L([p2, wr(), eq, "0"], "stmt", s)
+                        self.L([pad, self.st.end("if", allow_bare=False)], "close", s)
 
     # -- declarations ------------------------------------------------------------------------
     def var_decl(self, s, e, ind):
@@ -712,7 +760,7 @@ class Renderer:
         else:
             head = [pad, k(getattr(e, "vtype", "integer")) + attrs + " :: "]
         col = sum(len(p) if isinstance(p, str) else len(p[0]) for p in head)
-        ln = self.L(head + [(e.name, e, "decl")], "decl", s)
+        ln = self.L(head + [(e.name, e, "decl")] + ([e.dims] if getattr(e, "dims", None) else []), "decl", s)
         self.decl_pos(e, ln, col)
 
     def type_def(self, m, t, ind):
